@@ -54,9 +54,23 @@ type slot struct {
 	name  string
 	vs    []variant
 	quick int // leading variants used by the small menu
+	// set on the point slot only: the menu's name ("" = the reference-graph menu,
+	// "repeat" = the repeated-reference menu) and the number of points it stands
+	// on (0 = 4: the corners)
+	menu   string
+	points int
 }
 
-var corner = []wk.LL{wk.G(0, 0), wk.G(0, 2), wk.G(2, 2), wk.G(2, 0)} // counter-clockwise
+// p0..p3: the corners of a square, counter-clockwise; p4, p5 outside it (only
+// the repeated-reference menu uses those two)
+var corner = []wk.LL{wk.G(0, 0), wk.G(0, 2), wk.G(2, 2), wk.G(2, 0), wk.G(1, 3), wk.G(3, 1)}
+
+func pointCount(m []slot) int {
+	if m[sP0].points > 0 {
+		return m[sP0].points
+	}
+	return 4
+}
 
 func absent() variant { return variant{"absent", func(wk.IDScheme) *wk.FSpec { return nil }} }
 
@@ -91,6 +105,14 @@ func idOf(s wk.IDScheme, code string) b6.FeatureID {
 		return s.P(0)
 	case "p1":
 		return s.P(1)
+	case "p2":
+		return s.P(2)
+	case "p3":
+		return s.P(3)
+	case "p4":
+		return s.P(4)
+	case "p5":
+		return s.P(5)
 	case "w0":
 		return s.W(0)
 	case "w1":
@@ -112,6 +134,17 @@ func rel(i int, members ...string) variant {
 		f := &wk.FSpec{ID: s.R(i), Kind: wk.KRelation, Tags: []wk.TagSpec{{Key: "type", Value: "site"}}}
 		for j, m := range members {
 			f.Members = append(f.Members, wk.MemberSpec{ID: idOf(s, m), Role: fmt.Sprintf("m%d", j)})
+		}
+		return f
+	}}
+}
+
+// relSame: every member under the same role (rel gives every position a role of its own).
+func relSame(i int, members ...string) variant {
+	return variant{"[" + strings.Join(members, ",") + "]same-role", func(s wk.IDScheme) *wk.FSpec {
+		f := &wk.FSpec{ID: s.R(i), Kind: wk.KRelation, Tags: []wk.TagSpec{{Key: "type", Value: "site"}}}
+		for _, m := range members {
+			f.Members = append(f.Members, wk.MemberSpec{ID: idOf(s, m), Role: "stop"})
 		}
 		return f
 	}}
@@ -193,6 +226,77 @@ func menu() []slot {
 	}
 }
 
+// repeatMenu: the repeated-reference menu. Same slots and IDs as menu(), on six
+// points; every referrer comes in versions that reference the same feature more
+// than once — with further, different references after the repeat (a path that
+// revisits a point part-way along: out-and-back-and-on, figure of eight, two
+// revisits, a point passed three times; a relation or collection listing a
+// member twice, adjacent or apart, under the same role or different roles,
+// followed by other members; an area naming the same path in two polygons,
+// followed by another path) or with the repeat last — next to versions with the
+// same references and no repeat, so that an edit can replace one by the other.
+// No variant closes a reference cycle (R1 and C0 refer to R0, never back).
+func repeatMenu() []slot {
+	hw := []wk.TagSpec{{Key: "#highway", Value: "path"}}
+	return []slot{
+		{name: "P0", quick: 2, menu: "repeat", points: 6, vs: []variant{
+			{"plain", func(s wk.IDScheme) *wk.FSpec { return &wk.FSpec{ID: s.P(0), Kind: wk.KPoint, LL: corner[0]} }},
+			{"tagged", func(s wk.IDScheme) *wk.FSpec {
+				return &wk.FSpec{ID: s.P(0), Kind: wk.KPoint, LL: corner[0], Tags: []wk.TagSpec{{Key: "#amenity", Value: "cafe"}}}
+			}},
+		}},
+		{name: "W0", quick: 5, vs: []variant{
+			absent(),
+			path(0, "open-p0p1p2p3", hw, 0, 1, 2, 3), // no repeat
+			path(0, "revisit-p0p1p2p1p3", hw, 0, 1, 2, 1, 3),           // out and back to p1, then on to p3
+			path(0, "closed-p0p1p2p3", hw, 0, 1, 2, 3, 0),              // the only repeat is the last reference
+			path(0, "figure-eight-p0p1p2p3p1p4", hw, 0, 1, 2, 3, 1, 4), // loops back through p1, then on to p4
+			path(0, "out-and-back-p0p1p2p1", hw, 0, 1, 2, 1),           // the repeat is the last reference
+			path(0, "two-revisits-p1p0p1p2p0p3", nil, 1, 0, 1, 2, 0, 3),
+			path(0, "thrice-p0p1p0p2p0p5", hw, 0, 1, 0, 2, 0, 5),
+		}},
+		{name: "W1", quick: 3, vs: []variant{
+			absent(),
+			path(1, "closed-p0p1p2", nil, 0, 1, 2, 0),
+			path(1, "revisit-p2p0p2p4", hw, 2, 0, 2, 4),
+			path(1, "open-p0p3", hw, 0, 3),
+		}},
+		{name: "A0", quick: 3, vs: []variant{
+			absent(),
+			area("by-w0|w1", []int{0}, []int{1}), // no repeat
+			area("by-w0|w0|w1", []int{0}, []int{0}, []int{1}), // the same path in two polygons, then another
+			area("by-w0|w0", []int{0}, []int{0}),              // the repeat is the last reference
+			area("by-w0|w1|w0", []int{0}, []int{1}, []int{0}),
+			area("by-w0", []int{0}),
+		}},
+		{name: "R0", quick: 5, vs: []variant{
+			absent(),
+			rel(0, "p0", "p1", "p2"),       // no repeat
+			rel(0, "p0", "p1", "p0", "p2"), // out and back: a member twice under different roles, then another
+			relSame(0, "p0", "p0", "p2"),   // twice in a row under the same role, then another
+			relSame(0, "w0", "w0", "p3"),   // a path twice, then a point only this relation leads to
+			rel(0, "p1", "p0", "p0"),       // the repeat is the last reference
+			rel(0, "w0", "w1", "w0", "a0"),
+			relSame(0, "p0", "p0", "p0", "p1"), // three times
+			rel(0, "p2", "p2", "w1"),
+		}},
+		{name: "R1", quick: 3, vs: []variant{
+			absent(),
+			rel(1, "r0", "r0", "p3"), // a relation twice, then a point
+			rel(1, "p0", "r0"),       // no repeat
+			rel(1, "a0", "a0", "w1"),
+			relSame(1, "r0", "p4", "r0", "p5"),
+		}},
+		{name: "C0", quick: 3, vs: []variant{
+			absent(),
+			coll("p0", "p1"),       // no repeat
+			coll("p0", "p0", "p1"), // the same key twice, then another
+			coll("r0", "w0", "r0", "a0"),
+			coll("p1", "p0", "p0"), // the repeat is the last reference
+		}},
+	}
+}
+
 type state [nSlots]uint8
 
 func (st state) spec(m []slot, s wk.IDScheme) wk.Spec {
@@ -202,7 +306,7 @@ func (st state) spec(m []slot, s wk.IDScheme) wk.Spec {
 			out = append(out, *f)
 		}
 		if i == sP0 {
-			for p := 1; p < 4; p++ {
+			for p := 1; p < pointCount(m); p++ {
 				out = append(out, wk.FSpec{ID: s.P(p), Kind: wk.KPoint, LL: corner[p]})
 			}
 		}
@@ -222,6 +326,15 @@ func (st state) String(m []slot) string {
 
 func universe(s wk.IDScheme) []b6.FeatureID {
 	return []b6.FeatureID{s.P(0), s.P(1), s.P(3), s.W(0), s.W(1), s.A(0), s.R(0), s.R(1), s.C(0), s.P(9), s.R(9)}
+}
+
+// universeOf: the IDs queried under the menu (the repeated-reference menu also
+// asks about the points its paths reach after revisiting a point).
+func universeOf(m []slot, s wk.IDScheme) []b6.FeatureID {
+	if m[sP0].menu == "repeat" {
+		return []b6.FeatureID{s.P(0), s.P(1), s.P(2), s.P(3), s.P(4), s.P(5), s.W(0), s.W(1), s.A(0), s.R(0), s.R(1), s.C(0), s.P(9), s.R(9)}
+	}
+	return universe(s)
 }
 
 // ---- model helpers ------------------------------------------------------------
@@ -355,7 +468,11 @@ func observe(w b6.World, ids []b6.FeatureID) wk.Dump {
 }
 
 // classify one differing section: got vs want are space separated sorted ID lists.
-func classify(kind, section, got, want string, former []wk.Dump, droppedBase, cycle bool) string {
+//
+// repeaters (repeated-reference family only, nil elsewhere): the features of the
+// model state that reference some feature more than once; a wrong answer about
+// one of them (missing, extra or reported twice) is classed apart.
+func classify(kind, section, got, want string, former []wk.Dump, droppedBase, cycle bool, repeaters map[string]bool) string {
 	replaced := map[string]bool{} // referrers (under this query) in an earlier state of the history
 	for _, f := range former {
 		for _, x := range strings.Fields(f[section]) {
@@ -380,14 +497,16 @@ func classify(kind, section, got, want string, former []wk.Dump, droppedBase, cy
 		wset[x] = true
 	}
 	gset := map[string]bool{}
-	dup, extra, stale := false, false, false
+	dup, extra, stale, ofRepeater := false, false, false, false
 	for _, x := range g {
 		if gset[x] {
 			dup = true
+			ofRepeater = ofRepeater || repeaters[x]
 		}
 		gset[x] = true
 		if !wset[x] {
 			extra = true
+			ofRepeater = ofRepeater || repeaters[x]
 			if replaced[x] {
 				stale = true
 			}
@@ -397,7 +516,11 @@ func classify(kind, section, got, want string, former []wk.Dump, droppedBase, cy
 	for x := range wset {
 		if !gset[x] {
 			missing = true
+			ofRepeater = ofRepeater || repeaters[x]
 		}
+	}
+	if ofRepeater {
+		sec += ":referrer-with-a-repeated-reference"
 	}
 	switch {
 	case extra && droppedBase:
@@ -420,7 +543,7 @@ func classify(kind, section, got, want string, former []wk.Dump, droppedBase, cy
 	return kind + ":" + sec + ":differs"
 }
 
-func compare(r *kit.Result, kind string, got, want wk.Dump, former []wk.Dump, droppedBase, cycle bool, what func() string) bool {
+func compare(r *kit.Result, kind string, got, want wk.Dump, former []wk.Dump, droppedBase, cycle bool, repeaters map[string]bool, what func() string) bool {
 	var secs []string
 	for k := range want {
 		secs = append(secs, k)
@@ -434,7 +557,7 @@ func compare(r *kit.Result, kind string, got, want wk.Dump, former []wk.Dump, dr
 			g = "MISSING-SECTION"
 		}
 		if g != want[k] {
-			c := classify(kind, k, g, want[k], former, droppedBase, cycle)
+			c := classify(kind, k, g, want[k], former, droppedBase, cycle, repeaters)
 			if _, seen := byClass[c]; !seen {
 				order = append(order, c)
 			}
@@ -459,6 +582,44 @@ func compare(r *kit.Result, kind string, got, want wk.Dump, former []wk.Dump, dr
 		r.Violate(c, "%s\n%s", what(), strings.Join(l, "\n"))
 	}
 	return len(order) == 0
+}
+
+// repeatersOf: under the repeated-reference menu, the features of the state that
+// reference the same feature more than once (nil under the other menu, whose
+// classes stay as they were).
+func repeatersOf(m []slot, spec wk.Spec) map[string]bool {
+	if m[sP0].menu != "repeat" {
+		return nil
+	}
+	out := map[string]bool{}
+	for _, f := range spec {
+		seen := map[b6.FeatureID]bool{}
+		for _, x := range f.Refs() {
+			if seen[x] {
+				out[f.ID.String()] = true
+			}
+			seen[x] = true
+		}
+	}
+	return out
+}
+
+// midRepeat: the feature references some feature for the second time and then
+// goes on to reference a feature it had not referenced before (a path that
+// revisits a point part-way along, a relation listing a member twice followed by
+// other members, ...); a closed path's return to its first point is not one.
+func midRepeat(f *wk.FSpec) bool {
+	seen := map[b6.FeatureID]bool{}
+	repeated := false
+	for _, x := range f.Refs() {
+		if seen[x] {
+			repeated = true
+		} else if repeated {
+			return true
+		}
+		seen[x] = true
+	}
+	return false
 }
 
 func maxReferrers(spec wk.Spec, ids []b6.FeatureID) int {
@@ -565,7 +726,7 @@ func dropsReference(old, new *wk.FSpec) bool {
 // the start state (each on a fresh world, replayed from the start), checking
 // every reference query after the last operation of each sequence.
 func runHistories(r *kit.Result, c *histCfg, start state) {
-	ids := universe(c.sch)
+	ids := universeOf(c.m, c.sch)
 	startSpec := start.spec(c.m, c.sch)
 	var base b6.World
 	if c.kind == kindOverlay {
@@ -613,6 +774,8 @@ func runHistories(r *kit.Result, c *histCfg, start state) {
 		var w ingest.MutableWorld
 		var former []wk.Dump // expectations of the earlier states of this history
 		dropped, droppedBase := false, false
+		gainsRepeat, losesRepeat := false, false // repeated-reference menu: a replacement adds / removes a mid-sequence repeat
+		repeatMenu := c.m[sP0].menu == "repeat"
 		cur := start
 		describe := func() string {
 			var hs []string
@@ -658,6 +821,13 @@ func runHistories(r *kit.Result, c *histCfg, start state) {
 			if dropsReference(old, nf) {
 				dropped = true
 			}
+			if repeatMenu && old != nil && midRepeat(old) != midRepeat(nf) {
+				if midRepeat(nf) {
+					gainsRepeat = true
+				} else {
+					losesRepeat = true
+				}
+			}
 			if c.kind == kindOverlay && dropsReference(startSpec.Find(nf.ID), nf) {
 				droppedBase = true
 			}
@@ -674,7 +844,7 @@ func runHistories(r *kit.Result, c *histCfg, start state) {
 		got := observe(w, ids)
 		r.Evals++
 		r.Transitions += int64(len(n.hist))
-		good := compare(r, c.kind, got, want, former, droppedBase, n.anyCycle, describe)
+		good := compare(r, c.kind, got, want, former, droppedBase, n.anyCycle, repeatersOf(c.m, n.st.spec(c.m, c.sch)), describe)
 		mr := 0
 		for _, v := range want {
 			if v != "" {
@@ -696,6 +866,32 @@ func runHistories(r *kit.Result, c *histCfg, start state) {
 		if n.anyCycle {
 			tag += "+cycle"
 			r.Count(c.kind+":histories-visiting-a-cyclic-state", 1)
+		}
+		if repeatMenu {
+			fin := n.st.spec(c.m, c.sch)
+			mid := 0
+			for i := range fin {
+				if midRepeat(&fin[i]) {
+					mid++
+				}
+			}
+			switch {
+			case mid > 1:
+				tag = "repeat-menu:" + tag + "+several-mid-repeats"
+			case mid == 1:
+				tag = "repeat-menu:" + tag + "+mid-repeat"
+			default:
+				tag = "repeat-menu:" + tag
+			}
+			if mid > 0 {
+				r.Count(c.kind+":histories-ending-with-a-referrer-that-repeats-a-reference-mid-sequence", 1)
+			}
+			if gainsRepeat {
+				r.Count(c.kind+":histories-replacing-a-referrer-by-a-version-that-adds-a-mid-sequence-repeat", 1)
+			}
+			if losesRepeat {
+				r.Count(c.kind+":histories-replacing-a-referrer-by-a-version-that-removes-a-mid-sequence-repeat", 1)
+			}
 		}
 		res := "ok"
 		if !good {
@@ -753,7 +949,7 @@ func hasCollection(m []slot, st state) bool {
 
 func runStatic(r *kit.Result, m []slot, sch wk.IDScheme, kind string, st state) {
 	spec := st.spec(m, sch)
-	ids := universe(sch)
+	ids := universeOf(m, sch)
 	describe := func() string {
 		return fmt.Sprintf("static %s world, scheme %s, state {%s}\nspec: %s", kind, sch.Name, st.String(m), spec)
 	}
@@ -783,7 +979,7 @@ func runStatic(r *kit.Result, m []slot, sch wk.IDScheme, kind string, st state) 
 			}
 		}
 	}
-	good := compare(r, kind, got, want, nil, false, false, describe)
+	good := compare(r, kind, got, want, nil, false, false, repeatersOf(m, spec), describe)
 	res := "ok"
 	if !good {
 		res = "diff"
@@ -792,9 +988,21 @@ func runStatic(r *kit.Result, m []slot, sch wk.IDScheme, kind string, st state) 
 	if cyclic(spec) {
 		cy = ":cyclic"
 	}
+	if m[sP0].menu == "repeat" {
+		mid := 0
+		for i := range spec {
+			if midRepeat(&spec[i]) {
+				mid++
+			}
+		}
+		cy = fmt.Sprintf(":repeat-menu:mid-repeats=%d", mid)
+		if mid > 0 {
+			r.Count(kind+":static-states-with-a-referrer-that-repeats-a-reference-mid-sequence", 1)
+		}
+	}
 	r.Outcome = fmt.Sprintf("static-%s%s:max-referrers=%d:%s", kind, cy, maxReferrers(spec, ids), res)
 	r.Nontrivial = maxReferrers(spec, ids) > 0
-	r.Key = kind + "|" + sch.Name + "|" + st.String(m)
+	r.Key = kind + "|" + sch.Name + "|" + m[sP0].menu + "|" + st.String(m)
 }
 
 // ---- space ------------------------------------------------------------------------
@@ -804,6 +1012,7 @@ type caseDef struct {
 	sch  uint8
 	st   state
 	hc   *histCfg
+	m    []slot // nil = menu()
 }
 
 const (
@@ -831,7 +1040,7 @@ func radices(m []slot, small bool) []int {
 var statesCache = map[string][2][]state{}
 
 func states(m []slot, rad []int, _ wk.IDScheme) (acyclic, cyc []state) {
-	key := fmt.Sprint(rad)
+	key := m[sP0].menu + fmt.Sprint(rad)
 	if c, ok := statesCache[key]; ok {
 		return c[0], c[1] // sorted by size; callers do not modify
 	}
@@ -1084,10 +1293,109 @@ func build(tier string) (kit.Space, string) {
 		}
 	}
 
+	// 5. repeated-reference family (appended after the others, so their case
+	//    indices stay what they were): the repeat menu, statically on the basic and
+	//    compact worlds and through histories on the two mutable worlds
+	{
+		rm := repeatMenu()
+		rfull := radices(rm, false)
+		rsmall := radices(rm, true)
+		rAll, rCy := states(rm, rfull, sch)
+		if len(rCy) > 0 {
+			panic("the repeated-reference menu must not hold a reference cycle")
+		}
+		inSmallR := func(st state) bool {
+			for i := range st {
+				if int(st[i]) >= rsmall[i] {
+					return false
+				}
+			}
+			return true
+		}
+		nrs := 2
+		if thorough {
+			nrs = 3
+		}
+		for si := 0; si < nrs; si++ {
+			nb, nc := 0, 0
+			for _, st := range rAll {
+				// quick: the plain point only (tags of the point do not matter to a static build)
+				if thorough || (st[sP0] == 0 && (si == 0 || inSmallR(st))) {
+					cases = append(cases, caseDef{what: cStaticBasic, sch: uint8(si), st: st, m: rm})
+					nb++
+				}
+			}
+			for _, st := range rAll {
+				if !hasCollection(rm, st) && (thorough || (st[sP0] == 0 && (si == 0 || inSmallR(st)))) {
+					cases = append(cases, caseDef{what: cStaticCompact, sch: uint8(si), st: st, m: rm})
+					nc++
+				}
+			}
+			bound = append(bound, fmt.Sprintf("repeated-reference menu, scheme %s: static basic over %d states, static compact over %d collection-free states", wk.Schemes[si].Name, nb, nc))
+		}
+		rS, _ := states(rm, rsmall, sch)
+		var startsS, startsF []state
+		for _, st := range rS {
+			if st[sP0] == 0 { // start with the plain point; AddFeature(P0=tagged) is among the operations
+				startsS = append(startsS, st)
+			}
+		}
+		for _, st := range rAll {
+			if st[sP0] == 0 {
+				startsF = append(startsF, st)
+			}
+		}
+		smallOps := append(ops(rm, rsmall, allSlots), tagOps()...)
+		fullOps := append(ops(rm, rfull, allSlots), tagOps()...)
+		if !thorough {
+			for _, kind := range []string{kindMutable, kindOverlay} {
+				hc := &histCfg{m: rm, sch: sch, kind: kind, depth: 2, ops: smallOps}
+				for _, st := range startsS {
+					cases = append(cases, caseDef{what: cHist, st: st, hc: hc, m: rm})
+				}
+			}
+			bound = append(bound, fmt.Sprintf("repeated-reference family, small menu: %d start states x 2 kinds x every sequence of <= 2 of %d operations (AddFeature + 12 tag edits)", len(startsS), len(smallOps)))
+		} else {
+			for _, kind := range []string{kindMutable, kindOverlay} {
+				hc := &histCfg{m: rm, sch: sch, kind: kind, depth: 2, ops: fullOps}
+				for _, st := range startsS {
+					cases = append(cases, caseDef{what: cHist, st: st, hc: hc, m: rm})
+				}
+			}
+			bound = append(bound, fmt.Sprintf("repeated-reference family, small-menu starts: %d start states x 2 kinds x every sequence of <= 2 of %d operations (AddFeature of every variant of the full menu + 12 tag edits)", len(startsS), len(fullOps)))
+			for _, kind := range []string{kindMutable, kindOverlay} {
+				hc := &histCfg{m: rm, sch: sch, kind: kind, depth: 1, ops: fullOps}
+				for _, st := range startsF {
+					if !inSmallR(st) {
+						cases = append(cases, caseDef{what: cHist, st: st, hc: hc, m: rm})
+					}
+				}
+			}
+			bound = append(bound, fmt.Sprintf("repeated-reference family, full menu: the other %d start states x 2 kinds x every sequence of <= 1 of %d operations", len(startsF)-len(startsS), len(fullOps)))
+			var few []state
+			for _, st := range startsS {
+				if featureCount(rm, st) <= 3 { // the point and at most two referrers
+					few = append(few, st)
+				}
+			}
+			for _, kind := range []string{kindMutable, kindOverlay} {
+				hc := &histCfg{m: rm, sch: sch, kind: kind, depth: 3, ops: smallOps}
+				for _, st := range few {
+					cases = append(cases, caseDef{what: cHist, st: st, hc: hc, m: rm})
+				}
+			}
+			bound = append(bound, fmt.Sprintf("repeated-reference family, depth 3: %d start states (at most two referrers) x 2 kinds x every sequence of <= 3 of %d operations", len(few), len(smallOps)))
+		}
+	}
+
 	lastCases = cases
 	return kit.FuncSpace{N: int64(len(cases)), F: func(i int64) kit.Result {
 		var r kit.Result
 		c := cases[i]
+		m := m
+		if c.m != nil {
+			m = c.m
+		}
 		switch c.what {
 		case cStaticBasic:
 			runStatic(&r, m, wk.Schemes[c.sch], "basic", c.st)
@@ -1098,7 +1406,7 @@ func build(tier string) (kit.Space, string) {
 			r.Nontrivial = r.Distinct > 0
 		}
 		if i%401 == 0 {
-			r.Sample = map[string]interface{}{"case": whatNames[c.what], "state": c.st.String(m), "spec": c.st.spec(m, wk.Schemes[c.sch]).String()}
+			r.Sample = map[string]interface{}{"case": whatNames[c.what], "menu": m[sP0].menu, "state": c.st.String(m), "spec": c.st.spec(m, wk.Schemes[c.sch]).String()}
 		}
 		return r
 	}}, strings.Join(bound, "; ")
